@@ -439,10 +439,15 @@ class _Flow(Exception):
     pass
 
 
+OPAQUE_METHODS = {'but'}
+
+
 def default_inline(fi: FunctionInfo, depth: int) -> bool:
     """inline small, loop-free helpers only (factories, properties, one-liners)"""
     if depth > 6:
         return False
+    if fi.name in OPAQUE_METHODS and fi.cls is not None:
+        return False  # API methods whose contract is checked by their own rule (M3) and used as an opaque fact elsewhere
     nstmt = 0
     nif = 0
     for n in ast.walk(fi.node):
